@@ -128,9 +128,10 @@ Proof.
       - left. exact E.
       - right. split; [|constructor; [exact Hv | exact Hval]]. rewrite E, <- app_assoc. reflexivity. }
     destruct (fm (done ++ None :: repeat None (length rem)) 0 os) as [[[[j ?] ?] ?]|] eqn:Hfm.
-    + apply fm_lt in Hfm. rewrite app_length in Hfm, H4. cbn [length] in Hfm, H4. rewrite repeat_length in Hfm.
-      assert (j =? S (length done + S (length rem)) = false) as -> by (apply Nat.eqb_neq; lia).
-      left. reflexivity.
+    + apply fm_lt in Hfm. left.
+      match goal with |- context [?a =? ?x] => destruct (a =? x) eqn:Ej end; [|reflexivity].
+      exfalso. apply Nat.eqb_eq in Ej. rewrite app_length in Hfm, Ej. cbn [length] in Hfm, Ej.
+      rewrite repeat_length in Hfm. unfold slot, table, str in *. lia.
     + apply Hnext. reflexivity.
   - cbn [register_all]. cbn [length repeat] in H3. inversion Hr; subst.
     assert (g_opts s = Some ((done ++ [None]) ++ repeat None (length rem))) as A3
@@ -145,3 +146,484 @@ Proof.
     + left. exact E.
     + right. split; [|constructor; [exact I | exact Hval]]. rewrite E, <- app_assoc. reflexivity.
 Qed.
+
+(* ---------------- the first call (reset, dummy) and the initialisation pass ---------------- *)
+Definition after_reset (s : gst) : gst :=
+  set_optreset false (set_init false (set_found None (set_packed None
+    (set_optind 1 (set_opts None (set_optarg None s)))))).
+
+Lemma scan_cstr a : no_nul a -> scan_str (cstr a) = Ok a.
+Proof. intros H. unfold cstr. apply scan_str_cstr. exact H. Qed.
+
+Lemma getopt_first s0 argv : g_optreset s0 = true -> Forall no_nul argv ->
+  getopt s0 argv = Ok (after_reset s0, RDummy).
+Proof.
+  intros H Ha. unfold getopt. prj. rewrite H. unfold reset. destruct argv as [|a0 r].
+  - cbn [bind]. prj. reflexivity.
+  - unfold argv_obj. cbn [nth_error bind]. inversion Ha; subst. rewrite scan_cstr by assumption.
+    cbn [bind]. prj. reflexivity.
+Qed.
+
+Lemma setup_outcome s0 (t : table) miss : names_nn t ->
+  setup (after_reset s0) t miss = AssertFail \/
+  (exists s', setup (after_reset s0) t miss = Ok s' /\ ready t miss s' /\ g_optind s' = 1 /\
+              g_packed s' = None /\ names_valid t).
+Proof.
+  intros Hn. unfold setup.
+  set (s1 := set_default (S (length t)) (set_missing (S (length t))
+               (set_opts (Some (repeat None (length t))) (after_reset s0)))).
+  assert (setrange (after_reset s0) (length t) = Ok s1) as -> by reflexivity. cbn [bind].
+  assert (names_nn []) as Hnil by constructor.
+  destruct (register_all_outcome t [] s1 eq_refl eq_refl eq_refl eq_refl Hnil Hn) as [E | [E Hv]].
+  - left. cbn [length] in E. rewrite E. reflexivity.
+  - right. cbn [length app] in E. rewrite E. cbn [bind].
+    destruct miss as [ln|]; cbn [register_missing]; prj; cbn [bind];
+      (eexists; split; [reflexivity|]; split; [|split; [|split]]; try reflexivity; try exact Hv;
+       unfold ready; prj; repeat split; reflexivity).
+Qed.
+
+Lemma start_outcome s0 (t : table) miss argv : g_optreset s0 = true -> Forall no_nul argv -> names_nn t ->
+  start s0 t miss argv = AssertFail \/
+  (exists s', start s0 t miss argv = Ok s' /\ ready t miss s' /\ g_optind s' = 1 /\
+              g_packed s' = None /\ names_valid t).
+Proof.
+  intros H Ha Hn. unfold start. rewrite (getopt_first s0 argv H Ha). cbn [bind]. apply setup_outcome. exact Hn.
+Qed.
+
+(* ---------------- the run equals the reference parser with searchopt's resolution ---------------- *)
+Lemma run_after_start s (t : table) miss argv :
+  names_nn t -> names_valid t -> wf_miss t miss -> Forall no_nul argv ->
+  ready t miss s -> g_optind s = 1 -> g_packed s = None ->
+  exists s', loop (fuel_for argv) s argv = Ok (spec_coded t (is_some miss) argv, s').
+Proof.
+  intros Hn Hv Hm Ha Hr Hi Hp. destruct (loop_ok t miss argv Hn Hv Hm Ha (fuel_for argv)) as [Hw _].
+  destruct argv as [|a0 rem].
+  - exists (set_optarg None s). unfold fuel_for.
+    rewrite (stop_end t miss [] s _ Hr) by (rewrite Hi; cbn [length]; lia). rewrite Hi. reflexivity.
+  - destruct (Hw s [a0] rem Hr eq_refl Hi Hp) as [s' Hs'].
+    + unfold mrest, fuel_for. cbn [concat length]. rewrite app_length. lia.
+    + exists s'. exact Hs'.
+Qed.
+
+Theorem run_coded s0 (t : table) miss (argv : list str) :
+  g_optreset s0 = true -> names_nn t -> wf_miss t miss -> Forall no_nul argv ->
+  run_from s0 t miss argv = AssertFail \/
+  exists s', run_from s0 t miss argv = Ok (spec_coded t (is_some miss) argv, s').
+Proof.
+  intros H Hn Hm Ha. unfold run_from.
+  destruct (start_outcome s0 t miss argv H Ha Hn) as [E | (s1 & E & Hr & Hi & Hp & Hv)]; rewrite E.
+  - left. reflexivity.
+  - right. cbn [bind]. apply (run_after_start s1 t miss argv Hn Hv Hm Ha Hr Hi Hp).
+Qed.
+
+(* ---------------- well-formed tables are accepted by getopt_register_opt ---------------- *)
+Lemma in_names n h (t : table) : In (Some (n, h)) t -> In n (names t).
+Proof.
+  induction t as [|[[n' h']|] r IH]; intros H; [destruct H| |].
+  - rewrite names_cons_some. destruct H as [H|H]; [inversion H; left; reflexivity | right; apply IH; exact H].
+  - rewrite names_cons_none. destruct H as [H|H]; [discriminate | apply IH; exact H].
+Qed.
+
+Lemma names_valid_in (t : table) n h : names_valid t -> In (Some (n, h)) t -> valid_name n = true.
+Proof. intros Hv Hin. unfold names_valid in Hv. rewrite Forall_forall in Hv. apply (Hv _ Hin). Qed.
+
+Lemma fm_none_wf (done : table) k os : names_valid done -> name_ok os -> ~ In os (names done) ->
+  fm (done ++ None :: repeat None k) 0 os = None.
+Proof.
+  intros Hv Hok Hnin. destruct (fm (done ++ None :: repeat None k) 0 os) as [[[[j n] h] v]|] eqn:E; [|reflexivity].
+  exfalso. apply fm_some in E. destruct E as (_ & Hn & Hs). apply nth_error_In in Hn.
+  apply in_app_or in Hn. destruct Hn as [Hn | [Hn | Hn]]; [| discriminate | apply repeat_spec in Hn; discriminate].
+  destruct v as [x|].
+  - apply (name_ok_no_eq_ext n os x (names_valid_in done n h Hv Hn) Hok Hs).
+  - rewrite app_nil_r in Hs. subst n. apply Hnin. apply (in_names _ _ _ Hn).
+Qed.
+
+Lemma register_all_wf (rem : table) : forall (done : table) s,
+  g_optreset s = false -> g_init s = false -> g_opts s = Some (done ++ repeat None (length rem)) ->
+  g_default s = S (length (done ++ rem)) ->
+  Forall name_ok (names (done ++ rem)) -> NoDup (names (done ++ rem)) ->
+  register_all s rem (length done) = Ok (set_opts (Some (done ++ rem)) s).
+Proof.
+  induction rem as [|[[os h]|] rem IH]; intros done s H1 H2 H3 H4 Hok Hnd.
+  - cbn [register_all]. rewrite app_nil_r. cbn [length repeat] in H3. rewrite app_nil_r in H3.
+    destruct s. cbn in *. subst. reflexivity.
+  - cbn [register_all]. cbn [length repeat] in H3.
+    pose proof (names_ok_nn _ Hok) as Hnn. apply names_nn_app in Hnn. destruct Hnn as [Hd Hr].
+    inversion Hr as [|? ? Hos Hr']; subst.
+    rewrite (register_opt_outcome s done (repeat None (length rem)) os h _ H1 H2 H3 H4 Hd (names_nn_repeat _) Hos).
+    pose proof (names_ok_valid _ Hok) as Hva. apply names_valid_app in Hva. destruct Hva as [Hvd Hvr].
+    inversion Hvr as [|? ? Hvos _]; subst. rewrite Hvos. cbn [negb].
+    rewrite names_app, names_cons_some in Hok, Hnd.
+    assert (name_ok os) as Hoso by (apply Forall_app in Hok; destruct Hok as [_ Hok]; inversion Hok; assumption).
+    assert (~ In os (names done)) as Hnin.
+    { apply NoDup_remove_2 in Hnd. intros Hin. apply Hnd. apply in_or_app. left. exact Hin. }
+    rewrite (fm_none_wf done (length rem) os Hvd Hoso Hnin). cbn [bind].
+    match goal with |- register_all ?x _ _ = _ => set (s1 := x) end.
+    assert (g_opts s1 = Some ((done ++ [Some (os, h)]) ++ repeat None (length rem))) as A3
+      by (rewrite <- app_assoc; reflexivity).
+    assert (g_default s1 = S (length ((done ++ [Some (os, h)]) ++ rem))) as A4
+      by (change (g_default s1) with (g_default s); rewrite H4, !app_length; cbn [length]; lia).
+    specialize (IH (done ++ [Some (os, h)]) s1 H1 H2 A3 A4).
+    rewrite app_length in IH. cbn [length] in IH. replace (length done + 1) with (S (length done)) in IH by lia.
+    rewrite IH.
+    + rewrite <- app_assoc. reflexivity.
+    + rewrite <- app_assoc. cbn [app]. rewrite names_app, names_cons_some. exact Hok.
+    + rewrite <- app_assoc. cbn [app]. rewrite names_app, names_cons_some. exact Hnd.
+  - cbn [register_all]. cbn [length repeat] in H3.
+    assert (g_opts s = Some ((done ++ [None]) ++ repeat None (length rem))) as A3
+      by (rewrite <- app_assoc; exact H3).
+    assert (g_default s = S (length ((done ++ [None]) ++ rem))) as A4
+      by (rewrite H4, !app_length; cbn [length]; lia).
+    specialize (IH (done ++ [None]) s H1 H2 A3 A4).
+    rewrite app_length in IH. cbn [length] in IH. replace (length done + 1) with (S (length done)) in IH by lia.
+    rewrite IH.
+    + rewrite <- app_assoc. reflexivity.
+    + rewrite <- app_assoc. exact Hok.
+    + rewrite <- app_assoc. exact Hnd.
+Qed.
+
+Lemma start_wf s0 (t : table) miss argv : g_optreset s0 = true -> Forall no_nul argv -> wf_table t ->
+  exists s', start s0 t miss argv = Ok s' /\ ready t miss s' /\ g_optind s' = 1 /\ g_packed s' = None.
+Proof.
+  intros H Ha [Hok Hnd].
+  destruct (start_outcome s0 t miss argv H Ha (names_ok_nn t Hok)) as [E | (s' & E & Hr & Hi & Hp & _)].
+  - exfalso. unfold start in E. rewrite (getopt_first s0 argv H Ha) in E. cbn [bind] in E. unfold setup in E.
+    set (s1 := set_default (S (length t)) (set_missing (S (length t))
+                 (set_opts (Some (repeat None (length t))) (after_reset s0)))) in *.
+    assert (setrange (after_reset s0) (length t) = Ok s1) as Es by reflexivity. rewrite Es in E. cbn [bind] in E.
+    pose proof (register_all_wf t [] s1 eq_refl eq_refl eq_refl eq_refl Hok Hnd) as Er.
+    cbn [length] in Er. rewrite Er in E. cbn [bind] in E. destruct miss; discriminate.
+  - exists s'. auto.
+Qed.
+
+(* ---------------- on well-formed tables searchopt's resolution is the documented one ---------------- *)
+Lemma cod_doc_short (t : table) c : names_valid t -> cod_short t c = doc_short t c.
+Proof.
+  intros Hv. unfold cod_short, doc_short. induction t as [|[[n h]|] r IH]; [reflexivity| |].
+  - inversion Hv as [|? ? Hn Hr]; subst. specialize (IH Hr).
+    destruct (valid_name_len n Hn) as (c1 & r1 & ->).
+    cbn [first_match lookup strip_prefix str_eqb]. rewrite eqb_DD. cbn [andb].
+    rewrite (N.eqb_sym c1 c). destruct (N.eqb c c1) eqn:Ec.
+    + apply N.eqb_eq in Ec. subst c1. destruct r1 as [|x r1']; cbn [strip_prefix str_eqb andb]; [reflexivity | exact IH].
+    + cbn [andb]. exact IH.
+  - inversion Hv; subst. cbn [first_match lookup]. apply IH. assumption.
+Qed.
+
+Lemma strip_split r : ~ In EQC r -> forall body,
+  match strip_prefix r body with
+  | Some [] => split_eq body = (r, None)
+  | Some (c :: x) => if N.eqb c EQC then split_eq body = (r, Some x) else fst (split_eq body) <> r
+  | None => fst (split_eq body) <> r
+  end.
+Proof.
+  induction r as [|a r IH]; intros Hnin body.
+  - cbn [strip_prefix]. destruct body as [|c x]; [reflexivity|]. cbn [split_eq].
+    destruct (N.eqb c EQC); [reflexivity|]. destruct (split_eq x). cbn [fst]. discriminate.
+  - assert (a <> EQC) as Ha by (intros ->; apply Hnin; left; reflexivity).
+    assert (~ In EQC r) as Hr by (intros H; apply Hnin; right; exact H).
+    cbn [strip_prefix]. destruct body as [|y body']; [cbn [split_eq fst]; discriminate|].
+    cbn [split_eq]. destruct (N.eqb y EQC) eqn:Ey.
+    + apply N.eqb_eq in Ey. subst y. assert (N.eqb EQC a = false) as -> by (apply N.eqb_neq; congruence).
+      cbn [fst]. discriminate.
+    + destruct (N.eqb y a) eqn:Eya.
+      * apply N.eqb_eq in Eya. subst y. specialize (IH Hr body').
+        destruct (split_eq body') as [nm v]. cbn [fst] in *.
+        destruct (strip_prefix r body') as [[|c x]|].
+        -- inversion IH; subst. reflexivity.
+        -- destruct (N.eqb c EQC); [inversion IH; subst; reflexivity | congruence].
+        -- congruence.
+      * apply N.eqb_neq in Eya. destruct (split_eq body'). cbn [fst]. congruence.
+Qed.
+
+Lemma str_eqb_neq a b : a <> b -> str_eqb a b = false.
+Proof. intros H. destruct (str_eqb a b) eqn:E; [|reflexivity]. apply str_eqb_eq in E. contradiction. Qed.
+
+Lemma cod_doc_long (t : table) body : Forall name_ok (names t) -> cod_long t body = doc_long t body.
+Proof.
+  intros Hok. unfold cod_long, doc_long. destruct (split_eq body) as [nm v] eqn:Es.
+  induction t as [|[[n h]|] r IH]; [reflexivity| |].
+  - rewrite names_cons_some in Hok. inversion Hok as [|? ? Hn Hr]; subst. specialize (IH Hr).
+    destruct Hn as (Hv & _ & Hne). destruct (valid_name_len n Hv) as (c1 & r1 & ->).
+    cbn [first_match lookup strip_prefix str_eqb]. rewrite eqb_DD. cbn [andb].
+    cbn [valid_name] in Hv. rewrite eqb_DD in Hv. cbn [andb] in Hv.
+    rewrite (N.eqb_sym c1 DASH). destruct (N.eqb DASH c1) eqn:Ec; cbn [andb]; [|exact IH].
+    apply N.eqb_eq in Ec. subst c1.
+    pose proof (strip_split r1 (Hne r1 eq_refl) body) as Hs. rewrite Es in Hs. cbn [fst] in Hs.
+    destruct (strip_prefix r1 body) as [[|c x]|].
+    + inversion Hs; subst. rewrite str_eqb_refl. reflexivity.
+    + destruct (N.eqb c EQC).
+      * inversion Hs; subst. rewrite str_eqb_refl. reflexivity.
+      * rewrite (str_eqb_neq r1 nm) by congruence. exact IH.
+    + rewrite (str_eqb_neq r1 nm) by congruence. exact IH.
+  - rewrite names_cons_none in Hok. cbn [first_match lookup]. apply IH. exact Hok.
+Qed.
+
+(* the reference parser depends on the two resolution functions only pointwise *)
+Section Ext.
+  Variables (ls1 ls2 : N -> option (str * bool)) (ll1 ll2 : str -> option (str * bool * option str)).
+  Variable m : bool.
+  Hypothesis Hs : forall c, ls1 c = ls2 c.
+  Hypothesis Hl : forall b, ll1 b = ll2 b.
+
+  Lemma spec_pack_ext cs : spec_pack ls1 cs = spec_pack ls2 cs.
+  Proof.
+    induction cs as [|c r IH]; [reflexivity|]. cbn [spec_pack]. rewrite Hs, IH. reflexivity.
+  Qed.
+
+  Lemma spec_from_ext n : forall args idx, length args <= n ->
+    spec_from ls1 ll1 m args idx = spec_from ls2 ll2 m args idx.
+  Proof.
+    induction n as [|n IH]; intros args idx Hlen.
+    - destruct args; [reflexivity | cbn [length] in Hlen; lia].
+    - destruct args as [|w rest]; [reflexivity|]. cbn [length] in Hlen. cbn [spec_from].
+      assert (forall i, spec_from ls1 ll1 m rest i = spec_from ls2 ll2 m rest i) as E1
+        by (intros i; apply IH; lia).
+      assert (forall a rest' i, rest = a :: rest' ->
+                spec_from ls1 ll1 m rest' i = spec_from ls2 ll2 m rest' i) as E2
+        by (intros a rest' i ->; apply IH; cbn [length] in Hlen; lia).
+      destruct (classify w); try reflexivity.
+      + rewrite Hl. destruct (ll2 body) as [[[nm [|]] [v|]]|]; rewrite ?E1; try reflexivity.
+        destruct rest as [|a rest']; [reflexivity|]. rewrite (E2 a rest' _ eq_refl). reflexivity.
+      + rewrite spec_pack_ext. destruct (spec_pack ls2 cs) as [evs [|nm]]; rewrite ?E1; try reflexivity.
+        destruct rest as [|a rest']; [reflexivity|]. rewrite (E2 a rest' _ eq_refl). reflexivity.
+  Qed.
+End Ext.
+
+Lemma spec_coded_eq_spec (t : table) m argv : Forall name_ok (names t) ->
+  spec_coded t m argv = spec t m argv.
+Proof.
+  intros Hok. unfold spec_coded, spec. apply (spec_from_ext _ _ _ _ m) with (n := length (tl argv)).
+  - intros c. apply cod_doc_short. apply names_ok_valid. exact Hok.
+  - intros b. apply cod_doc_long. exact Hok.
+  - lia.
+Qed.
+
+(* ---------------- M1: the model equals the reference parser ---------------- *)
+Theorem getopt_eq_spec (t : table) miss (argv : list str) :
+  wf_table t -> wf_miss t miss -> Forall no_nul argv ->
+  run_model t miss argv = Ok (spec t (is_some miss) argv).
+Proof.
+  intros Hwf Hm Ha. pose proof Hwf as [Hok Hnd]. unfold run_model, run_from.
+  destruct (start_wf init_state t miss argv eq_refl Ha Hwf) as (s1 & E & Hr & Hi & Hp). rewrite E. cbn [bind].
+  destruct (run_after_start s1 t miss argv (names_ok_nn t Hok) (names_ok_valid t Hok) Hm Ha Hr Hi Hp) as [s' Hs'].
+  rewrite Hs'. cbn [bind]. rewrite (spec_coded_eq_spec t _ argv Hok). reflexivity.
+Qed.
+
+(* ---------------- M3: a run after optreset equals a fresh run ---------------- *)
+Lemma start_reset_indep s0 (t : table) miss argv : g_optreset s0 = true ->
+  start s0 t miss argv = start init_state t miss argv.
+Proof.
+  intros H. unfold start, getopt. prj. rewrite H. cbn [g_optreset init_state]. unfold reset.
+  destruct (match argv with [] => Ok [] | _ :: _ => let* a := argv_obj argv 0 in scan_str a end);
+    cbn [bind]; try reflexivity.
+Qed.
+
+Theorem reset_fresh s (t : table) miss (argv : list str) :
+  run_from (set_optreset true s) t miss argv = run_from init_state t miss argv.
+Proof. unfold run_from. rewrite (start_reset_indep (set_optreset true s)) by reflexivity. reflexivity. Qed.
+
+(* ---------------- C15: no read outside the argv strings ---------------- *)
+Theorem getopt_no_fault s (t : table) miss (argv : list str) :
+  names_nn t -> wf_miss t miss -> Forall no_nul argv ->
+  run_from (set_optreset true s) t miss argv <> Fault /\
+  run_from (set_optreset true s) t miss argv <> OutOfFuel.
+Proof.
+  intros Hn Hm Ha.
+  destruct (run_coded (set_optreset true s) t miss argv eq_refl Hn Hm Ha) as [E | [s' E]]; rewrite E;
+    split; discriminate.
+Qed.
+
+(* ---------------- M2: where parsing stops ---------------- *)
+Section Stops.
+  Variable ls : N -> option (str * bool).
+  Variable ll : str -> option (str * bool * option str).
+  Variable m : bool.
+
+  (* an operand (anything not starting with '-', the empty string, a lone "-") ends the parse and
+     is not consumed; "--" ends the parse and is consumed *)
+  Lemma spec_stops_at_operand w rest idx : classify w = WOperand ->
+    spec_from ls ll m (w :: rest) idx = ([], idx).
+  Proof. intros H. cbn [spec_from]. rewrite H. reflexivity. Qed.
+
+  Lemma spec_stops_after_dashdash rest idx :
+    spec_from ls ll m ([DASH; DASH] :: rest) idx = ([], S idx).
+  Proof. reflexivity. Qed.
+
+  (* why the parse ended at k *)
+  Definition stop_reason (args : list str) (idx k : nat) : Prop :=
+    idx <= k <= idx + length args /\
+    (k = idx + length args \/
+     (exists w, nth_error args (k - idx) = Some w /\ classify w = WOperand) \/
+     (idx < k /\ nth_error args (k - idx - 1) = Some [DASH; DASH])).
+
+  Lemma stop_reason_shift w args idx k : stop_reason args (S idx) k -> stop_reason (w :: args) idx k.
+  Proof.
+    intros [Hb Hd]. unfold stop_reason. cbn [length]. split; [lia|].
+    destruct Hd as [Hd | [(x & Hx & Hc) | [Hlt Hx]]].
+    - left. lia.
+    - right. left. exists x. split; [|exact Hc]. replace (k - idx) with (S (k - S idx)) by lia. exact Hx.
+    - right. right. split; [lia|]. replace (k - idx - 1) with (S (k - S idx - 1)) by lia. exact Hx.
+  Qed.
+
+  Lemma spec_stop_reason n : forall args idx, length args <= n ->
+    stop_reason args idx (snd (spec_from ls ll m args idx)).
+  Proof.
+    induction n as [|n IH]; intros args idx Hlen.
+    - destruct args; [|cbn [length] in Hlen; lia]. cbn [spec_from snd]. unfold stop_reason. cbn [length]. split; [lia|].
+      left. lia.
+    - destruct args as [|w rest].
+      { cbn [spec_from snd]. unfold stop_reason. cbn [length]. split; [lia|]. left. lia. }
+      cbn [length] in Hlen.
+      assert (forall i : nat, stop_reason (w :: rest) idx (snd (spec_from ls ll m rest (S idx)))) as E1.
+      { intros _. apply stop_reason_shift. apply IH. lia. }
+      assert (forall a rest', rest = a :: rest' ->
+                stop_reason (w :: rest) idx (snd (spec_from ls ll m rest' (S (S idx))))) as E2.
+      { intros a rest' ->. apply stop_reason_shift, stop_reason_shift. apply IH. cbn [length] in Hlen. lia. }
+      assert (rest = [] -> stop_reason (w :: rest) idx (S idx)) as E3.
+      { intros ->. unfold stop_reason. cbn [length]. split; [lia|]. left. lia. }
+      cbn [spec_from]. destruct (classify w) eqn:Hc.
+      + cbn [snd]. unfold stop_reason. cbn [length]. split; [lia|]. right. left. exists w.
+        rewrite Nat.sub_diag. split; [reflexivity | exact Hc].
+      + cbn [snd]. unfold stop_reason. cbn [length]. split; [lia|]. right. right. split; [lia|].
+        replace (S idx - idx - 1) with 0 by lia. apply classify_dd in Hc. subst w. reflexivity.
+      + destruct (ll body) as [[[nm [|]] [v|]]|]; cbn [cons_ev snd]; try apply (E1 0).
+        destruct rest as [|a rest']; [apply E3; reflexivity | cbn [cons_ev snd]; apply (E2 a rest' eq_refl)].
+      + destruct (spec_pack ls cs) as [evs [|nm]]; cbn [app_ev snd]; try apply (E1 0).
+        destruct rest as [|a rest']; [apply E3; reflexivity | cbn [app_ev cons_ev snd]; apply (E2 a rest' eq_refl)].
+  Qed.
+
+  (* the index of the first operand, computed without looking at what the options mean beyond
+     "does this one swallow the next word": equals the final optind *)
+  Definition long_needs_next (body : str) : bool :=
+    match ll body with Some (_, true, None) => true | _ => false end.
+  Definition pack_needs_next (cs : str) : bool :=
+    match snd (spec_pack ls cs) with PNeed _ => true | PDone => false end.
+
+  Fixpoint first_operand (args : list str) (idx : nat) {struct args} : nat :=
+    match args with
+    | [] => idx
+    | w :: rest =>
+      let needs := match classify w with
+                   | WLong body => long_needs_next body
+                   | WPack cs => pack_needs_next cs
+                   | _ => false
+                   end in
+      match classify w with
+      | WOperand => idx
+      | WDashDash => S idx
+      | _ => if needs then (match rest with _ :: rest' => first_operand rest' (S (S idx)) | [] => S idx end)
+             else first_operand rest (S idx)
+      end
+    end.
+
+  Lemma spec_optind_first_operand n : forall args idx, length args <= n ->
+    snd (spec_from ls ll m args idx) = first_operand args idx.
+  Proof.
+    induction n as [|n IH]; intros args idx Hlen.
+    - destruct args; [reflexivity | cbn [length] in Hlen; lia].
+    - destruct args as [|w rest]; [reflexivity|]. cbn [length] in Hlen.
+      assert (forall i, snd (spec_from ls ll m rest i) = first_operand rest i) as E1 by (intros i; apply IH; lia).
+      assert (forall a rest' i, rest = a :: rest' ->
+                snd (spec_from ls ll m rest' i) = first_operand rest' i) as E2
+        by (intros a rest' i ->; apply IH; cbn [length] in Hlen; lia).
+      cbn [spec_from first_operand]. destruct (classify w) eqn:Hc; try reflexivity.
+      + unfold long_needs_next. destruct (ll body) as [[[nm [|]] [v|]]|]; cbn [cons_ev snd]; try apply E1.
+        destruct rest as [|a rest']; [reflexivity | cbn [cons_ev snd]; apply (E2 a rest' _ eq_refl)].
+      + unfold pack_needs_next. destruct (spec_pack ls cs) as [evs [|nm]]; cbn [app_ev snd]; try apply E1.
+        destruct rest as [|a rest']; [reflexivity | cbn [app_ev cons_ev snd]; apply (E2 a rest' _ eq_refl)].
+  Qed.
+End Stops.
+
+(* M2 for the model, through M1 *)
+Theorem getopt_stops (t : table) miss (argv : list str) :
+  wf_table t -> wf_miss t miss -> Forall no_nul argv ->
+  exists evs k, run_model t miss argv = Ok (evs, k) /\
+    stop_reason (tl argv) 1 k /\
+    k = first_operand (doc_short t) (doc_long t) (tl argv) 1.
+Proof.
+  intros Hwf Hm Ha. rewrite (getopt_eq_spec t miss argv Hwf Hm Ha).
+  destruct (spec t (is_some miss) argv) as [evs k] eqn:E. exists evs, k. split; [reflexivity|].
+  unfold spec in E. split.
+  - pose proof (spec_stop_reason (doc_short t) (doc_long t) (is_some miss) _ (tl argv) 1 (le_n _)) as H.
+    rewrite E in H. exact H.
+  - pose proof (spec_optind_first_operand (doc_short t) (doc_long t) (is_some miss) _ (tl argv) 1 (le_n _)) as H.
+    rewrite E in H. exact H.
+Qed.
+
+Theorem getopt_stops_operand (t : table) miss (a0 w : str) (rest : list str) :
+  wf_table t -> wf_miss t miss -> Forall no_nul (a0 :: w :: rest) -> classify w = WOperand ->
+  run_model t miss (a0 :: w :: rest) = Ok ([], 1).
+Proof.
+  intros Hwf Hm Ha Hc. rewrite (getopt_eq_spec t miss _ Hwf Hm Ha). unfold spec. cbn [tl].
+  rewrite spec_stops_at_operand by exact Hc. reflexivity.
+Qed.
+
+Theorem getopt_stops_dashdash (t : table) miss (a0 : str) (rest : list str) :
+  wf_table t -> wf_miss t miss -> Forall no_nul (a0 :: [DASH; DASH] :: rest) ->
+  run_model t miss (a0 :: [DASH; DASH] :: rest) = Ok ([], 2).
+Proof.
+  intros Hwf Hm Ha. rewrite (getopt_eq_spec t miss _ Hwf Hm Ha). reflexivity.
+Qed.
+
+(* ---------------- non-vacuity ---------------- *)
+Definition s_b : str := [45; 98]%N.                     (* "-b" *)
+Definition s_f : str := [45; 102]%N.                    (* "-f" *)
+Definition s_bar : str := [45; 45; 98; 97; 114]%N.      (* "--bar" *)
+Definition s_foo : str := [45; 45; 102; 111; 111]%N.    (* "--foo" *)
+Definition ex_table : table :=
+  [Some (s_b, false); Some (s_bar, false); None; Some (s_f, true); Some (s_foo, true)].
+
+Ltac name_ok_tac :=
+  split; [reflexivity | split; [unfold no_nul; repeat (constructor; [discriminate|]); constructor |
+    intros r H; inversion H; subst; cbn; intuition discriminate]].
+
+Example ex_table_wf : wf_table ex_table /\ wf_miss ex_table (Some 2).
+Proof.
+  split; [split|reflexivity].
+  - cbn [ex_table names flat_map app]. repeat (constructor; [name_ok_tac|]). constructor.
+  - cbn [ex_table names flat_map app]. repeat (constructor; [cbn; intuition discriminate|]). constructor.
+Qed.
+
+(* prog -bbfbar --foo=x --bar=1 -f -- -b op :  -b -b -f(bar) --foo(x) default(--bar) -f(--) -b, stops at op *)
+Definition ex_argv : list str :=
+  [[112; 114; 111; 103]; [45; 98; 98; 102; 98; 97; 114]; [45; 45; 102; 111; 111; 61; 120];
+   [45; 45; 98; 97; 114; 61; 49]; s_f; [45; 45]; s_b; [111; 112]]%N.
+
+Example ex_run :
+  run_model ex_table (Some 2) ex_argv =
+  Ok ([Opt s_b; Opt s_b; OptArg s_f [98; 97; 114]%N; OptArg s_foo [120]%N; Default s_bar;
+       OptArg s_f [45; 45]%N; Opt s_b], 7).
+Proof. vm_compute. reflexivity. Qed.
+
+Example ex_argv_ok : Forall no_nul ex_argv.
+Proof. repeat (constructor; [unfold no_nul; repeat (constructor; [discriminate|]); constructor|]). constructor. Qed.
+
+(* missing argument: through the missing label if there is one, else the default label *)
+Example ex_missing :
+  run_model ex_table (Some 2) [[112]; s_b; s_foo]%N = Ok ([Opt s_b; Missing s_foo], 3) /\
+  run_model ex_table None [[112]; s_b; s_foo]%N = Ok ([Opt s_b; Default s_foo], 3).
+Proof. split; vm_compute; reflexivity. Qed.
+
+(* a parse abandoned in the middle of a pack, then optreset: the stale packedopts is discarded *)
+Example ex_reset_midpack :
+  exists s, run_from_n 1 init_state ex_table None [[112]; [45; 98; 98; 98]]%N = Ok ([Opt s_b], None, s) /\
+            g_packed s = Some (1, 2) /\
+            run_from (set_optreset true s) ex_table None [[112]; s_b; [120]]%N =
+            run_from init_state ex_table None [[112]; s_b; [120]]%N.
+Proof. eexists. split; [vm_compute; reflexivity|]. split; [reflexivity | apply reset_fresh]. Qed.
+
+(* why wf_table excludes '=' inside long names: both registrations below are accepted by
+   getopt_register_opt, and then "--a=b" resolves by slot order rather than by the grammar *)
+Definition ex_eq_table : table := [Some ([45; 45; 97; 61; 98]%N, false); Some ([45; 45; 97]%N, true)].
+Example ex_eq_in_name :
+  run_model ex_eq_table None [[112]; [45; 45; 97; 61; 98]]%N = Ok ([Opt [45; 45; 97; 61; 98]%N], 2) /\
+  spec ex_eq_table false [[112]; [45; 45; 97; 61; 98]]%N = ([OptArg [45; 45; 97]%N [98]%N], 2).
+Proof. split; vm_compute; reflexivity. Qed.
+
+(* duplicate and malformed names are refused by the registration pass (DIE) *)
+Example ex_refused :
+  run_model [Some (s_b, false); Some (s_b, true)] None [[112]]%N = AssertFail /\
+  run_model [Some ([45]%N, false)] None [[112]]%N = AssertFail /\
+  run_model [Some ([45; 45]%N, false)] None [[112]]%N = AssertFail /\
+  run_model [Some ([45; 97; 98]%N, false)] None [[112]]%N = AssertFail.
+Proof. repeat split; vm_compute; reflexivity. Qed.
